@@ -8,7 +8,7 @@ S^T X S with S = S_1...S_k.  All matrices are symbolic.
 """
 import numpy
 from vf.framework import harness
-from harness.common import spectral_hamiltonian, tensor_with_identities
+from harness.common import spectral_hamiltonian, spectral_hermitian, tensor_with_identities
 
 F_M = "quantarhei/core/managers.py"
 F_T = "quantarhei/utils/types.py"
@@ -216,3 +216,193 @@ def nested_two_operators(cx, N):
             cx.prove_eq("inner/H_rep", ham.data, rep(Ss, objs["H"][1]), tol=1e-7)
         cx.prove_eq("mid/H_diagonal", ham.data, numpy.diag(w), tol=1e-7)
     check_restored(cx, "after", m, st0, objs)
+
+
+@harness("C04", "write_first_access",
+         quick=[dict(kind=k) for k in ("Hamiltonian", "Operator", "ReducedDensityMatrix")],
+         thorough=[dict(kind=k) for k in ("Hamiltonian", "Operator", "ReducedDensityMatrix", "SuperOperator")],
+         functions=FUNCS,
+         bound="N=2: an object built outside is WRITTEN inside eigenbasis_of(H) as its first access there; read-back "
+               "inside equals the written value; after exit its site-basis value is S Y S^T; a second object that is "
+               "read first and written afterwards behaves the same",
+         out="")
+def write_first_access(cx, kind):
+    import quantarhei as qr
+    from quantarhei.core.managers import Manager
+    N = 2
+    m = Manager()
+    H, w, S = spectral_hamiltonian(cx, N)
+    with cx.concrete():
+        ham = qr.Hamiltonian(data=numpy.diag(numpy.arange(N, dtype=float)))
+    ham._data = H.copy()
+
+    def fresh():
+        with cx.concrete():
+            if kind == "Hamiltonian":
+                o = qr.Hamiltonian(data=numpy.diag(numpy.arange(N, dtype=float)))
+            elif kind == "Operator":
+                o = qr.qm.Operator(dim=N, real=False)
+            elif kind == "ReducedDensityMatrix":
+                o = qr.ReducedDensityMatrix(dim=N)
+            else:
+                o = qr.qm.SuperOperator(dim=N)
+        return o
+    four = (kind == "SuperOperator")
+    sym_val = (lambda nm: cx.real_symmetric(nm, N)) if kind == "Hamiltonian" else (lambda nm: cx.hermitian(nm, N))
+    if four:
+        from harness.common import tensor_with_identities as twi
+        sym_val = lambda nm: twi(cx, N, nm)
+    o1, o2 = fresh(), fresh()
+    X1, X2 = sym_val("X1"), sym_val("X2")
+    o1._data, o2._data = X1.copy(), X2.copy()
+    Y1, Y2 = sym_val("Y1"), sym_val("Y2")
+    st0 = manager_state(m)
+    with qr.eigenbasis_of(ham):
+        Sx = m.basis_transformations[-1]
+        o1.data = Y1.copy()                    # write as first access
+        cx.prove_eq("inside/readback_after_first_write", o1.data, Y1, tol=1e-7)
+        _ = o2.data                            # read first ...
+        o2.data = Y2.copy()                    # ... then write
+        cx.prove_eq("inside/readback_after_read_write", o2.data, Y2, tol=1e-7)
+    back = (lambda Y: numpy.einsum("ai,bj,ijkl,ck,dl->abcd", Sx, Sx, Y, Sx, Sx)) if four else \
+        (lambda Y: numpy.dot(Sx, numpy.dot(Y, Sx.T)))
+    cx.prove_eq("after/first_write_site_value", o1._data, back(Y1), tol=1e-7)
+    cx.prove_eq("after/read_write_site_value", o2._data, back(Y2), tol=1e-7)
+    cx.prove("after/bookkeeping", manager_state(m)[:4] == st0[:4] and o1.get_current_basis() == 0
+             and o2.get_current_basis() == 0)
+
+
+@harness("C04", "hermitian_context_operator",
+         quick=[dict(exc=False), dict(exc=True)], thorough=[dict(exc=False), dict(exc=True)],
+         functions=FUNCS,
+         bound="N=2: context of a COMPLEX Hermitian operator (e.g. a density matrix with complex coherences) given by "
+               "its eigen-decomposition with a unitary S (Givens rotation times column phases); inside it is diagonal, "
+               "tr(A rho) is invariant; everything is restored on exit (normal / exception)",
+         out="N>=3 unitary families")
+def hermitian_context_operator(cx, exc):
+    import quantarhei as qr
+    from quantarhei.core.managers import Manager
+    N = 2
+    m = Manager()
+    W0, w, S = spectral_hermitian(cx)
+    with cx.concrete():
+        W = qr.qm.SelfAdjointOperator(dim=N, data=numpy.diag(numpy.arange(N, dtype=float)))
+        rho = qr.ReducedDensityMatrix(dim=N)
+        A = qr.qm.Operator(dim=N, real=False)
+    W._data = W0.copy()
+    rho0 = cx.hermitian("rho", N)
+    A0 = cx.cplx_array("A", (N, N))
+    rho._data, A._data = rho0.copy(), A0.copy()
+    objs = dict(W=(W, W0), rho=(rho, rho0), A=(A, A0))
+    st0 = manager_state(m)
+    tr_out = numpy.trace(numpy.dot(A0, rho0))
+    created = {}
+    try:
+        with qr.eigenbasis_of(W):
+            Sx = m.basis_transformations[-1]
+            D = W.data
+            off = ~numpy.eye(N, dtype=bool)
+            cx.prove_eq("inside/W_diagonal", D, numpy.diag(w), tol=1e-7)
+            cx.prove_eq("inside/tr_A_rho", numpy.trace(numpy.dot(A.data, rho.data)), tr_out, tol=1e-7)
+            cx.prove_eq("inside/rho_rep", rho.data, numpy.dot(numpy.conj(Sx.T), numpy.dot(rho0, Sx)), tol=1e-7)
+            Z = cx.cplx_array("Z", (N, N))
+            with cx.concrete():
+                B = qr.qm.Operator(dim=N, real=False)
+            B.data = Z.copy()
+            created["B"] = (B, numpy.dot(Sx, numpy.dot(Z, numpy.conj(Sx.T))))
+            if exc:
+                raise Boom()
+    except Boom:
+        pass
+    objs.update(created)
+    check_restored(cx, "after", m, st0, objs)
+
+
+@harness("C04", "transform_methods",
+         quick=[dict(cls=c) for c in ("Operator", "Hamiltonian", "SuperOperator4", "SuperOperatorT", "DMEvolution",
+                                      "Dipole")],
+         thorough=[dict(cls=c) for c in ("Operator", "Hamiltonian", "SuperOperator4", "SuperOperatorT", "DMEvolution",
+                                         "Dipole", "EvolutionSuperOperator")],
+         functions=["quantarhei/qm/hilbertspace/operators.py:Operator.transform",
+                    "quantarhei/qm/hilbertspace/hamiltonian.py:Hamiltonian.transform",
+                    "quantarhei/qm/liouvillespace/superoperator.py:SuperOperator.transform",
+                    "quantarhei/qm/propagators/dmevolution.py:DensityMatrixEvolution.transform",
+                    "quantarhei/qm/hilbertspace/dmoment.py:TransitionDipoleMoment.transform"],
+         bound="N=2: each class's transform(S) called with an ARBITRARY orthogonal matrix S (rotation times signs; in "
+               "nested contexts the composite of two eigenvector matrices is a genuine rotation), inverse through "
+               "numpy.linalg.inv: the data become the conjugated ones for every time / Cartesian index",
+         out="N>=3")
+def transform_methods(cx, cls):
+    import quantarhei as qr
+    N = 2
+    if cx.sym:
+        from symnum import linalg, npatch
+        S = linalg.givens_orthogonal(N, "S")
+        npatch.tag_inverse(S, S.T.copy())
+    else:
+        c, s_ = cx.real("S.c0", 0.3, 0.9), cx.real("S.s0", 0.3, 0.9)
+        nrm = (c * c + s_ * s_) ** 0.5
+        c, s_ = c / nrm, s_ / nrm
+        S = numpy.array([[c, -s_], [s_, c]])
+        for i in range(N):
+            S[:, i] *= (1.0 if cx.real("S.sg%d" % i) >= 0 else -1.0)
+    conj2 = lambda X: numpy.dot(S.T, numpy.dot(X, S))
+    conj4 = lambda R: numpy.einsum("ia,jb,ijkl,kc,ld->abcd", S, S, R, S, S)
+    with cx.concrete():
+        time = qr.TimeAxis(0.0, 2, 1.0)
+    if cls == "Operator":
+        with cx.concrete():
+            o = qr.qm.Operator(dim=N, real=False)
+        X = cx.cplx_array("X", (N, N))
+        o._data = X.copy()
+        o.transform(S)
+        cx.prove_eq("conjugated", o._data, conj2(X), tol=1e-7)
+    elif cls == "Hamiltonian":
+        with cx.concrete():
+            o = qr.Hamiltonian(data=numpy.diag(numpy.arange(N, dtype=float)))
+        X = cx.real_symmetric("X", N)
+        J = cx.real_symmetric("JR", N, zero_diag=True)
+        o._data = X.copy()
+        o.JR = J.copy()
+        o._has_remainder_coupling = True
+        o.transform(S)
+        cx.prove_eq("conjugated", o._data, conj2(X), tol=1e-7)
+        cx.prove_eq("remainder_conjugated", o.JR, conj2(J), tol=1e-7)
+    elif cls in ("SuperOperator4", "SuperOperatorT", "EvolutionSuperOperator"):
+        R0 = cx.cplx_array("R", (N, N, N, N))
+        R1 = cx.cplx_array("Q", (N, N, N, N))
+        if cls == "EvolutionSuperOperator":
+            from harness.C08 import system
+            from quantarhei.qm import EvolutionSuperOperator
+            ham, RT, tm, H, R, step = system(cx, N, 2)
+            o = EvolutionSuperOperator(tm, ham=ham, relt=RT)
+        else:
+            with cx.concrete():
+                o = qr.qm.SuperOperator(dim=N)
+        if cls == "SuperOperator4":
+            o._data = R0.copy()
+            o.transform(S)
+            cx.prove_eq("conjugated", o._data, conj4(R0), tol=1e-7)
+        else:
+            o._data = numpy.array([R0, R1])
+            o.transform(S)
+            cx.prove_eq("conjugated[0]", o._data[0], conj4(R0), tol=1e-7)
+            cx.prove_eq("conjugated[1]", o._data[1], conj4(R1), tol=1e-7)
+    elif cls == "DMEvolution":
+        with cx.concrete():
+            rho = qr.ReducedDensityMatrix(dim=N)
+            o = qr.qm.ReducedDensityMatrixEvolution(time, rho)
+        X0, X1 = cx.cplx_array("X0", (N, N)), cx.cplx_array("X1", (N, N))
+        o._data = numpy.array([X0, X1])
+        o.transform(S)
+        cx.prove_eq("conjugated[0]", o._data[0], conj2(X0), tol=1e-7)
+        cx.prove_eq("conjugated[1]", o._data[1], conj2(X1), tol=1e-7)
+    else:
+        from quantarhei.qm.hilbertspace.dmoment import TransitionDipoleMoment
+        D = cx.real_array("D", (N, N, 3))
+        with cx.concrete():
+            o = TransitionDipoleMoment(data=numpy.zeros((N, N, 3)))
+        o._data = D.copy()
+        o.transform(S)
+        for k in range(3):
+            cx.prove_eq("conjugated[%d]" % k, o._data[:, :, k], conj2(D[:, :, k]), tol=1e-7)
